@@ -52,7 +52,7 @@ fn bp_hit(w: &World, bps: &[BpS]) -> bool {
 }
 
 /// Emulates one run-style call on `w` using only step_in.
-fn emulate(w: &mut World, op: &Op, bps: &[BpS], acc: &mut Acc, depth: &mut u64) -> Result<Stop, String> {
+fn emulate(w: &mut World, op: &Op, bps: &mut Vec<BpS>, acc: &mut Acc, depth: &mut u64) -> Result<Stop, String> {
     let start_count = w.sim.instructions_run;
     // call depth as the harness counts it (calls, traps, interrupt/exception entries minus
     // RET/JMP R7/RTI, saturating) — deliberately not the library's own frame counter
@@ -79,6 +79,13 @@ fn emulate(w: &mut World, op: &Op, bps: &[BpS], acc: &mut Acc, depth: &mut u64) 
                 evals += 1;
                 if evals > *n {
                     mcr.store(false, Ordering::Relaxed);
+                }
+                true
+            }
+            Op::RunWhile(Pred::BpAfter(n, b)) => {
+                evals += 1;
+                if evals == *n && !bps.contains(b) {
+                    bps.push(b.clone());
                 }
                 true
             }
@@ -218,7 +225,7 @@ impl C13 {
                     Ok(_) => unreachable!(),
                     Err(p) => fail!(i, format!("panic-in-{}", op_name(op)), p),
                 };
-                let sb = match emulate(&mut b, op, &bps, &mut acc_b, &mut depth_b) {
+                let sb = match emulate(&mut b, op, &mut bps, &mut acc_b, &mut depth_b) {
                     Ok(s) => s,
                     Err(p) => fail!(i, "panic-in-step_in", p),
                 };
@@ -319,7 +326,14 @@ impl C13 {
                     let mut res = Ok(OpRes::Drive(Ok(())));
                     for _ in 0..*n {
                         match tracked_step(&mut b, &mut depth_b, &mut sink) {
-                            Ok((Ok(()), _)) => {}
+                            Ok((Ok(()), halted)) => {
+                                // single steps that sat on a virtual HALT kept polling the devices (timers
+                                // count down, interrupts may be taken there): what follows is not a segment
+                                // of the execution one unbroken run() performs
+                                if halted {
+                                    unbroken_ok = false;
+                                }
+                            }
                             Ok((Err(_), _)) => break,
                             Err(p) => {
                                 res = Err(p);
@@ -394,15 +408,25 @@ pub fn gen_c13(r: &mut Rng, profile: &str) -> MScn {
     if r.chance(1, 4) {
         s.devs.push(DevSpec::Script(ScriptSpec { ports: vec![], vect: 0x91, prio: 0, raises: vec![], externals: vec![], read_refuse: vec![], write_refuse: vec![], read_base: 0, mcr_clear: sorted((0..1 + r.below(2)).map(|_| r.below(200) as u32).collect()) }));
     }
+    // the public instruction counter may have any value when a call starts
+    if r.chance(1, 8) {
+        s.ops.push(Op::SetInstrCount(u64::MAX - r.below(64)));
+    }
     let n = 1 + r.below(11);
     for _ in 0..n {
         match r.below(16) {
             0 | 1 => s.ops.push(Op::Run),
-            2..=4 => s.ops.push(Op::RunLimit(*r.pick(&[0u64, 1, 2, 3, 5, 8, 13, 40, 200]))),
+            2..=4 => s.ops.push(Op::RunLimit(*r.pick(&[0u64, 1, 2, 3, 5, 8, 13, 40, 200, u64::MAX, u64::MAX - 1, 1 << 63]))),
             5 => s.ops.push(Op::RunWhile(Pred::PcNe(0x3000 + r.below(40) as u16))),
             6 => s.ops.push(Op::RunWhile(Pred::RegNe(r.below(6) as u8, r.below(8) as u16))),
             7 => s.ops.push(Op::RunWhile(Pred::Count(r.below(30)))),
-            8 => s.ops.push(Op::RunWhile(Pred::McrAfter(r.below(25) as u32))),
+            8 => {
+                if r.bool() {
+                    s.ops.push(Op::RunWhile(Pred::McrAfter(r.below(25) as u32)))
+                } else {
+                    s.ops.push(Op::RunWhile(Pred::BpAfter(1 + r.below(20) as u32, if r.bool() { BpS::Pc(0x3000 + r.below(48) as u16) } else { BpS::Reg(r.below(6) as u8, Cmp::Le(r.below(6) as u16)) })))
+                }
+            }
             9 | 10 => s.ops.push(Op::StepOver),
             11 => s.ops.push(Op::StepOut),
             12 => s.ops.push(Op::Step(1 + r.below(5) as u32)),
